@@ -24,10 +24,10 @@ sys.path.insert(0, HERE)
 
 from polarlint.model import Repo, AnalysisError  # noqa: E402
 from polarlint.core import Ob, Rule, Result, run_rules, run_mutants, violation_keys, write_evidence, load_known  # noqa: E402
-from polarlint.rules import conformance, libcontract, state, splice, pipeline, validate, flow, bayes  # noqa: E402
+from polarlint.rules import conformance, libcontract, state, splice, pipeline, validate, flow, bayes, mechanisms  # noqa: E402
 
 R = {}
-for mod in (conformance, libcontract, state, splice, pipeline, validate, flow, bayes):
+for mod in (conformance, libcontract, state, splice, pipeline, validate, flow, bayes, mechanisms):
     for k, v in mod.RULES.items():
         if k in R:
             raise SystemExit(f"duplicate rule id {k}")
@@ -48,21 +48,26 @@ def S(rid, include=None, thorough_only=False):
 
 PROPERTIES = {
     "C01": dict(
-        specs=[S("FLAGS"), S("LOSSY"), S("SOLVERFLAG"), S("ACTIONS")],
+        specs=[S("FLAGS"), S("LOSSY"), S("SOLVERFLAG"), S("ACTIONS"),
+               # necessary conditions shared with C02 / C03 / C19: the pipeline the closed forms come out of
+               S("ORDER"), S("A2"), S("CONSTANTS"), S("REBUILD"), S("MEMO"), S("IFFLAT"), S("MULTIASSIGN"), S("DISTREWRITE"), S("SECTIONTABLES"),
+               S("D1"), S("A1-cond"), S("A4M"), S("FRESHCTX"), S("SOLVERSCOPE"),
+               S("SPLICE", r"inputparser/|program/"), S("GRAMMAR"), S("PARSER")],
         clause="(i) exactness-flag plumbing: every approximating call clears, and every combiner forwards, the flag that print_is_exact reports; "
                "(ii) pipeline order: a parsed program reaches the recurrence builders only through normalize_program. "
                "NOT decided: that any closed form equals the expectation (value-level)."),
     "C02": dict(
-        specs=[S("ORDER"), S("A2"), S("CONSTANTS"), S("REBUILD"), S("MEMO"), S("SPLICE", r"program/transformer/|program/distribution/"), S("FLAG")],
+        specs=[S("ORDER"), S("A2"), S("CONSTANTS"), S("REBUILD"), S("MEMO"), S("SPLICE", r"program/transformer/|program/distribution/"), S("FLAG"),
+               S("IFFLAT"), S("MULTIASSIGN"), S("DISTREWRITE"), S("COND2ARITHM"), S("SECTIONTABLES"), S("MARKLAST")],
         clause="typestate of the 10-pass pipeline on all settings paths; write-back of substitutions in all subs implementations; constant folding guarded by a "
                "free-symbol test; section rebuilders keep every assignment; memo invalidation; parenthesised location/scale templates. "
                "NOT decided: semantic equivalence of the if-flattening / alias rewrites."),
     "C03": dict(
-        specs=[S("D1"), S("A1-cond"), S("A4M")],
+        specs=[S("D1"), S("A1-cond"), S("A4M"), S("FRESHCTX")],
         clause="indicator polynomials of And/Or/Not/True/False equal their boolean meaning on all rows; composite conditions recurse into every child; the three "
                "get_moment bodies share the guarded-assignment shape. NOT decided: Atom's Lagrange indicator, power reduction, closure, coefficients."),
     "C05": dict(
-        specs=[S("ENUM"), S("TYPER"), S("SUPPORT"), S("IMPLIED")],
+        specs=[S("ENUM"), S("TYPER"), S("SUPPORT"), S("IMPLIED"), S("MARKLAST"), S("GUARD")],
         clause="discrete supports enumerate the values the moment/sampler sides use; intervals are refused; only non-failed numeric sets become types; the start state "
                "covers the whole initial block; defaults are included unless the condition is implied by the guard; implied-by-guard answers are sound. "
                "NOT decided: that the fixed point covers all reachable values."),
@@ -74,11 +79,11 @@ PROPERTIES = {
         specs=[S("GROEBNER")],
         clause="both groebner() calls compute elimination ideals (generator prefix == filtered symbols, lex order). NOT decided: completeness of the exponent lattice."),
     "C08": dict(
-        specs=[S("A1-dist"), S("A2", r"program/distribution/"), S("SAMPLERS"), S("ENUM"), S("FLOAT", r"float_to_rational|distribution"), S("CFMGF")],
+        specs=[S("A1-dist"), S("A2", r"program/distribution/"), S("SAMPLERS"), S("ENUM"), S("FLOAT", r"float_to_rational|distribution"), S("CFMGF"), S("DISTREWRITE")],
         clause="every parameter field is consulted by subs/free symbols/sampler/printer/moment/cf/mgf; scipy sampler arguments denote the moment side's law; discrete "
                "enumerations agree; float parameters become exact rationals; cf(t) == mgf(i t) as rational functions. NOT decided: any moment formula."),
     "C09": dict(
-        specs=[S("GUARD"), S("ORIGGUARD"), S("AFTERLOOP"), S("IMPLIED")],
+        specs=[S("GUARD"), S("ORIGGUARD"), S("AFTERLOOP"), S("IMPLIED"), S("MARKLAST")],
         clause="only the source guard is marked as guard; the termination indicator derives from the source guard; after-loop arms condition on termination and take the "
                "limit; the conditional moment is a ratio over one negated-guard indicator. NOT decided: limits, divergence."),
     "C12": dict(
@@ -87,7 +92,7 @@ PROPERTIES = {
                "value enumeration; simulator dispatch / first-match branching / guard stuttering / guarded assignment have the assumed shape. "
                "NOT decided: the distribution of simulated states."),
     "C13": dict(
-        specs=[S("MGF"), S("VOCAB"), S("A1-assign", r"FunctionalAssignment|DistAssignment")],
+        specs=[S("MGF"), S("VOCAB"), S("A1-assign", r"FunctionalAssignment|DistAssignment"), S("TRANSFORMTERM"), S("SECTIONTABLES"), S("FRESHCTX")],
         clause="mgf is used only behind a raising existence test at the order used; function-name literals are in the grammar vocabulary, dispatchers are total, trig/exp "
                "mixing is refused; rounding happens in one funnel. NOT decided: the transform formulas."),
     "C15": dict(
@@ -99,7 +104,7 @@ PROPERTIES = {
         clause="the rational kernel is not truncated to integers; the LLL loop returns only what passed the exact membership test. NOT decided: independence, completeness."),
     "C17": dict(
         specs=[S("SETTINGS-W"), S("SETTINGS-C"), S("ROOTS"), S("LOSSY", r"utils/expressions.py"), S("SOLVERFLAG"), S("REBUILD"), S("PARSER", r"_transform_categorical"),
-               S("ORDER", r"cond2arithm=True")],
+               S("ORDER", r"cond2arithm=True"), S("COND2ARITHM")],
         clause="options are written only by the CLI setter and read at call time; settings<->options<->setter census; every root source is complete and approximations clear "
                "the flag; cond2arithm keeps every assignment; categorical expansion keeps index/value/probability aligned. NOT decided: equality of closed forms across settings."),
     "C19": dict(
@@ -107,7 +112,7 @@ PROPERTIES = {
         clause="parser templates are precedence-safe; arithmetic is re-stringified token by token; probability vectors and assigned names are validated; floats become "
                "exact rationals; simultaneous assignment puts all temporaries first. NOT decided: equality of the analyses of two spellings."),
     "C20": dict(
-        specs=[S("SETTINGS-W"), S("STATE"), S("RANDOM"), S("LRU"), S("FLAG"), S("SETORDER")],
+        specs=[S("SETTINGS-W"), S("STATE"), S("RANDOM"), S("LRU"), S("FLAG"), S("SETORDER"), S("SOLVERSCOPE"), S("FRESHCTX")],
         clause="inventory of process-global mutable state equals the reviewed table; settings are not written outside the setter (except scoped overrides); memoised "
                "callables read nothing the analysis phase mutates; order-sensitive consumers of sets equal the reviewed table; randomness only in the simulator; the class flag is refreshed by every normalisation. "
                "NOT decided: equality of results across histories / hash seeds."),
